@@ -75,7 +75,7 @@ def shifts_of(p: Poly):
 
 FUNCS: Dict[str, tuple] = {}   # atom name -> (fname, argument Poly)
 
-EVEN_FUNCS = {"sinc", "cos", "abs", "sq"}
+EVEN_FUNCS = {"sinc", "cos", "abs", "sq", "nz"}
 AREA_ATOMS = {"SAREA", "AREA"}
 POINT_ATOMS = {"c.x": "x", "c.y": "y", "c.z": "z"}
 
